@@ -207,3 +207,60 @@ for _tag, _kw, _want in (("compartment", dict(item_type="comp"), "Number"), ("ch
 for _tag, _kw in (("a_timescale_without_units", dict(item_type="par", timescale=1.0)), ("a_timescale_with_units_that_cannot_be_converted", dict(item_type="par", fmt="proportion", timescale=1.0))):
     CONTRACTS["framework:ProjectFramework.get_databook_units#%s" % _tag] = dict(
         schema=schema, make_env=_env_units(**_kw), stubs=_units_stubs, call_stubs=_units_calls, raises={"InvalidFramework": "True"}, raises_props=["C18"], ensures=[], defined_props=["C16", "C18"])
+
+
+# ---- ProjectFramework._validate_names as a whole (C18: "undefined or duplicate names"): the code names of compartments, characteristics, parameters, interactions and population
+# types are pairwise different, contain no reserved symbol and are no reserved keyword; the DISPLAY names of compartments, characteristics, parameters and interactions are pairwise
+# different too.  A code name may equal a display name.  The four tables of the framework are ghosts (their index and their display-name column).
+def _env_names(comps, characs, pars, inters, pop_types=("default",)):
+    def make(it):
+        from pyvc.interp import PyObjV
+        from pyvc import source
+
+        return {"self": PyObjV("ProjectFramework", source.load("framework"), {"name": "fw"}), "CI": [c for c, _ in comps], "CD": [d for _, d in comps], "HI": [c for c, _ in characs], "HD": [d for _, d in characs],
+                "PI": [c for c, _ in pars], "PD": [d for _, d in pars], "II": [c for c, _ in inters], "ID": [d for _, d in inters], "PT": list(pop_types)}
+
+    return make
+
+
+_names_stubs = {"self.comps.index": "CI", "self.comps['display name']": "CD", "self.characs.index": "HI", "self.characs['display name']": "HD", "self.pars.index": "PI", "self.pars['display name']": "PD",
+                "self.interactions.index": "II", "self.interactions['display name']": "ID", "self.pop_types.keys()": "PT"}
+_ok = dict(comps=[("sus", "Susceptible"), ("inf", "Infected")], characs=[("alive", "Everybody")], pars=[("foi", "Force of infection"), ("rec", "Recovery rate")], inters=[("w", "Mixing")])
+for _tag, _kw in (("all_names_distinct", _ok),
+                  ("a_code_name_equal_to_a_display_name_is_allowed", dict(_ok, pars=[("foi", "Force of infection"), ("Susceptible", "Recovery rate")], characs=[("alive", "rec2")]))):
+    CONTRACTS["framework:ProjectFramework._validate_names#%s" % _tag] = dict(
+        schema=schema, make_env=_env_names(**_kw), stubs=_names_stubs, ensures=[("C18.distinct_valid_names_are_accepted", "result is None")], defined_props=["C18"], raises_props=["C18"])
+for _tag, _kw in (("parameter_display_name_used_by_a_characteristic", dict(_ok, pars=[("foi", "Everybody"), ("rec", "Recovery rate")])),
+                  ("two_parameters_with_the_same_display_name", dict(_ok, pars=[("foi", "Rate"), ("rec", "Rate")])),
+                  ("compartment_display_name_used_by_an_interaction", dict(_ok, inters=[("w", "Infected")])),
+                  ("parameter_code_name_used_by_a_compartment", dict(_ok, pars=[("sus", "Force of infection")])),
+                  ("code_name_equal_to_a_population_type", dict(_ok, pars=[("default", "Force of infection")])),
+                  ("code_name_with_a_reserved_symbol", dict(_ok, comps=[("s:us", "Susceptible")])),
+                  ("reserved_keyword_as_code_name", dict(_ok, characs=[("all", "Everybody")]))):
+    CONTRACTS["framework:ProjectFramework._validate_names#%s" % _tag] = dict(
+        schema=schema, make_env=_env_names(**_kw), stubs=_names_stubs, raises={"InvalidFramework": "True"}, raises_props=["C18"], ensures=[], defined_props=["C18"])
+
+
+def _replay_duplicate_display_name(model, contract):
+    """replay on the REAL ProjectFramework._validate_names: the udt framework with a parameter given the display name of a characteristic"""
+    import logging
+    import warnings
+
+    warnings.filterwarnings("ignore")
+    import atomica as at
+
+    at.logger.setLevel(logging.ERROR)
+    F = at.ProjectFramework(at.LIBRARY_PATH / "udt_framework.xlsx")
+    par, charac = F.pars.index[0], F.characs.index[0]
+    taken = F.characs.at[charac, "display name"]
+    F.pars.at[par, "display name"] = taken
+    pre = dict(framework="udt", parameter=par, display_name_taken_from_characteristic=charac, display_name=taken)
+    try:
+        F._validate_names()
+    except at.InvalidFramework as e:
+        return dict(verdict="holds", detail="refused: %s" % str(e)[:120], prestate=pre)
+    return dict(verdict="violates", detail="parameter %r and characteristic %r both have the display name %r and the framework is accepted" % (par, charac, taken), prestate=pre)
+
+
+for _t in ("parameter_display_name_used_by_a_characteristic", "two_parameters_with_the_same_display_name", "a_code_name_equal_to_a_display_name_is_allowed"):
+    CONTRACTS["framework:ProjectFramework._validate_names#%s" % _t]["replay_hook"] = _replay_duplicate_display_name
